@@ -40,6 +40,7 @@ def run(ctx):
         for b in impls:
             check_call(ctx, f, b, cfg, drop_exits)
         check_role(ctx, f, cfg)
+        check_clone(ctx, f, cfg)
     ctx.floor("C20.anchor", "impl tower::Service::call for SentinelService (two cfg variants)", n_impls, 2)
 
 
@@ -288,6 +289,34 @@ def _describe_leak(c, w):
                 return "via-error-propagation"
             names.append(n.rsplit("::", 1)[-1])
     return "via-" + (names[-1] if names else "fallthrough")
+
+
+def check_clone(ctx, f, cfg):
+    """The role (and with it the traffic direction under which Sentinel decides) survives cloning: every hand-written Clone of the
+    middleware's types takes each field of the copy from the same field of `self` (a `..Default::default()` tail silently resets the
+    role to Server, so a cloned client layer enters as Inbound)."""
+    n = 0
+    for b in f.impl_methods("Clone", "clone"):
+        st_name = (b.impl_self or "").split("<")[0]
+        if not st_name.startswith(("SentinelLayer", "SentinelService")):
+            continue
+        sl = Slicer(f, b)
+        for blk in b.blocks:
+            if blk["cleanup"]:
+                continue
+            for st in blk["stmts"]:
+                if st["k"] == "assign" and st["lhs"]["l"] == 0 and st["rv"]["k"] == "agg" and (st["rv"].get("adt") or "").split("<")[0] == st_name:
+                    n += 1
+                    lost = []
+                    for nm, o in zip(st["rv"]["fields"], st["rv"]["ops"]):
+                        at = sl.of_operand(o)
+                        if not any(x == "field:%s.%s" % (st_name, nm) for x in at) or "param:self" not in at:
+                            lost.append(nm)
+                    ctx.instance("C20.traffic-role/clone", "%s [%s]" % (b.path, cfg), {"fields_not_copied_from_self": lost}, "every field of the clone comes from the same field of self", not lost, cfg)
+                    if lost:
+                        ctx.violation("C20.traffic-role", "C20.traffic-role|%s|clone|%s|%s" % (cfg, st_name, ",".join(lost)),
+                                      "%s::clone does not copy %s from self: a clone decides under another role / extractor / fallback than the original" % (st_name, lost), b.loc(), config=cfg)
+    ctx.floor("C20.traffic-role/clone", "hand-written Clone impls of the middleware types [%s]" % cfg, n, 2)
 
 
 def check_role(ctx, f, cfg):
